@@ -64,6 +64,48 @@ def ctr_defs(env):
     return [canon(n['init'], env, subst=False) for d, n in sorted(env.decls.items()) if env.rename.get(d) == 'ctr']
 
 
+def _uncast(t):
+    if isinstance(t, tuple):
+        if len(t) == 3 and t[0] == 'cast' and t[1] in ('unsigned long', 'size_t', 'std::size_t', 'const unsigned long'):
+            return _uncast(t[2])
+        return tuple(_uncast(x) for x in t)
+    return t
+
+
+def _grid_covers(ctx, rid, f, env, ps, qs):
+    """the grid of the product encoding has a cell for every literal: rows = ceil(sqrt(n)), columns = ceil(n / rows) (rounded UP)."""
+    def strip(n):
+        while n is not None and n.get('k') in ('CXXStaticCastExpr', 'CStyleCastExpr', 'CXXFunctionalCastExpr', 'ImplicitCastExpr') and n.get('c'):
+            n = n['c'][0]
+        return n
+
+    def is_ceil(n):
+        return n is not None and n.get('k') == 'CallExpr' and (n.get('callee_name') or '').rsplit('::', 1)[-1] in ('ceil', 'ceilf', 'ceill')
+    pi, qi = strip(ps.get('init')), strip(qs.get('init'))
+    n_t = size_of('ls')
+    rows_ok = is_ceil(pi) and (lambda a: a is not None and a.get('k') == 'CallExpr' and (a.get('callee_name') or '').rsplit('::', 1)[-1] in ('sqrt', 'sqrtf', 'sqrtl')
+                               and _uncast(canon(a['c'][1], env, subst=False)) == n_t)(strip(pi['c'][1]) if len(pi.get('c') or ()) > 1 else None)
+    cols = None
+    if is_ceil(qi) and len(qi.get('c') or ()) > 1:
+        d = strip(qi['c'][1])
+        if d is not None and d.get('k') == 'BinaryOperator' and d.get('op') == '/':
+            floating = (d.get('t') or '') in ('double', 'float', 'long double')
+            num, den = _uncast(canon(d['c'][0], env, subst=False)), _uncast(canon(d['c'][1], env, subst=False))
+            cols = 'ceil' if floating and num == n_t and den == 'ps' else ('floor' if num == n_t and den == 'ps' else None)
+    elif qi is not None and qi.get('k') == 'BinaryOperator' and qi.get('op') == '/':
+        num, den = _uncast(canon(qi['c'][0], env, subst=False)), _uncast(canon(qi['c'][1], env, subst=False))
+        if den == 'ps' and num == n_t:
+            cols = 'floor' if (qi.get('t') or '') not in ('double', 'float', 'long double') or (qs.get('t') or '').replace('const ', '') not in ('double', 'float', 'long double') else None
+        elif den == 'ps' and num in (('-', ('+', 'ps', n_t), ('num', 1)), ('+', ('-', n_t, ('num', 1)), 'ps'), ('-', ('+', n_t, 'ps'), ('num', 1)), ('+', n_t, ('-', 'ps', ('num', 1)))):
+            cols = 'ceil'
+    ctx.instance(rid, [f.id, 'grid-covers'], {'rows': src(ps), 'columns': src(qs), 'rows_are_ceil_sqrt_n': bool(rows_ok), 'columns_round': cols})
+    if cols == 'floor':
+        ctx.finding(rid, f.id, 'grid-covers', 'new_at_most_one (product encoding): the number of columns is n / rows rounded DOWN (%s): when rows does not divide n the grid has fewer than n cells, the last literals get no '
+                    'row / column clauses and the at-most-one (and the exactly-one built on it) no longer constrains them' % src(qs), node=qs, expect='columns = ceil(n / rows)')
+    elif not rows_ok or cols != 'ceil':
+        raise AnalysisBroken('%s: product encoding: grid dimensions %s / %s are computed in a way the checker does not recognise (expected ceil(sqrt(n)) and ceil(n / rows))' % (f.id, src(ps), src(qs)))
+
+
 def r1_r2(ctx, fs):
     rid, rid2 = 'C13.R1', 'C13.R2'
     ctx.rule(rid, 'set of clause schemas posted by each constructor == Tseitin definition (eq: 4 clauses; conj/disj: n+1; at-most-one pairwise i<j and product grid; exactly-one = at-most-one + at-least-one)', floor=13)
@@ -92,12 +134,27 @@ def r1_r2(ctx, fs):
     f = fs.fn(SC + 'new_at_most_one')
     env = roles(fs, f, ['ls'])
     vecs = sorted(d for d, n in env.decls.items() if n.get('t') == 'std::vector<smt::lit>')
-    dbls = sorted((d for d, n in env.decls.items() if n.get('t') == 'double'), key=lambda d: _posl(d))
     vecs.sort(key=_posl)
-    if len(vecs) != 2 or len(dbls) != 2:
-        raise AnalysisBroken('%s: product encoding: expected two literal vectors (rows, columns) and two grid dimensions' % f.id)
+    if len(vecs) != 2:
+        raise AnalysisBroken('%s: product encoding: expected two literal vectors (rows, columns)' % f.id)
     env.rename[vecs[0]], env.rename[vecs[1]] = 'u', 'v'
-    env.rename[dbls[0]], env.rename[dbls[1]] = 'ps', 'qs'
+    # the grid dimensions are the bounds of the loops that fill the row / column vectors with fresh variables
+    dims = {}
+    for n in f.nodes():
+        if n.get('k') == 'ForStmt':
+            pb = [m for m in walk(n['slots']['body']) if m.get('k') == 'CXXMemberCallExpr' and (m.get('callee_name') or '').endswith(('::push_back', '::emplace_back'))]
+            c = n['slots'].get('cond')
+            if len(pb) == 1 and c is not None and c.get('k') == 'BinaryOperator' and c.get('op') == '<':
+                tgt = canon(pb[0]['c'][0]['c'][0], env, subst=False)
+                bound = c['c'][1]
+                while bound.get('k') in ('ImplicitCastExpr', 'CXXStaticCastExpr', 'CStyleCastExpr') and bound.get('c'):
+                    bound = bound['c'][0]
+                if tgt in ('u', 'v') and bound.get('k') == 'DeclRefExpr' and bound.get('dloc') in env.decls:
+                    dims[tgt] = bound['dloc']
+    if set(dims) != {'u', 'v'} or dims['u'] == dims['v']:
+        raise AnalysisBroken('%s: product encoding: the two grid dimensions (bounds of the loops filling the row and column vectors) were not found' % f.id)
+    env.rename[dims['u']], env.rename[dims['v']] = 'ps', 'qs'
+    _grid_covers(ctx, rid, f, env, env.decls[dims['u']], env.decls[dims['v']])
     _, cl = posted(fs, f, env=env)
     small = [(c, w, n) for c, w, n in cl if ('if', ('<', size_of('ls'), ('num', 4)), True) in w]
     big = [(c, w, n) for c, w, n in cl if ('if', ('<', size_of('ls'), ('num', 4)), False) in w]
@@ -114,7 +171,7 @@ def r1_r2(ctx, fs):
     check_set(ctx, rid, f, 'amo-pairwise', [c for c, _, _ in small], want, {c: n for c, _, n in small})
     # product encoding: grid loops i < ps, j < qs, guard k < size with k = i*qs + j (row-major)
     from ..schema import resort
-    K = resort(('cast', 'unsigned long', ('+', '$1', ('*', '$0', 'qs'))))
+    K = resort(('+', '$1', ('*', '$0', 'qs')))
     gi = ('for', ('num', 0), ('<', '$0', 'ps'), ('++', '$0'))
     gj = ('for', ('num', 0), ('<', '$1', 'qs'), ('++', '$1'))
     guard = ('if', ('<', K, size_of('ls')), True)
@@ -124,6 +181,8 @@ def r1_r2(ctx, fs):
     nodes = {}
     for c, w, n in big:
         loops = tuple(x for x in c[0] if not (x[0] == 'if' and x[2] is False))      # the `||`-chained second call sits in the condition of the same if
+        c = (_uncast(loops), frozenset(_uncast(x) for x in c[1]))          # the cell index may or may not be cast to size_t
+        loops = c[0]
         got.append((loops, c[1]))
         nodes[(loops, c[1])] = n
     check_set(ctx, rid, f, 'amo-product', got, want, nodes)
